@@ -186,8 +186,10 @@ def check(index, ctx):
     # R5: the emptiness of the differentiated collections is settled before the first write, in every argument form
     ctx.rule("R5", "before the first .grad write of a call, a test has established that `tensors` (backward) / `features` and `losses` (mtl_backward) are non-empty — in every "
                    "argument form (explicit and defaulted parameter lists): an empty collection is refused up front, not by whatever fails first downstream")
-    for run in rs:
+    for run in list(rs) + _pipe.oneshot_runs(index):
         need = ["tensors"] if run.entry == "backward" else ["features", "losses"]
+        if run.variant.get("oneshot"):
+            need = [a for a in need if a in run.variant["oneshot"]]
         if "single Tensor" in run.label or run.variant.get("single"):
             need = [a for a in need if a == "losses"]  # one tensor given directly: a list of one element, nothing to test
         miss_: dict = {}
